@@ -136,6 +136,15 @@ func sortStrings(a []string) {
 }
 
 func keyCtx(kind, key string) context.Context {
+	switch key {
+	case "<none>": // a request that carries no partition key at all
+		return context.Background()
+	case "<int>": // a key of another type than string: no partition is named by it, no string matcher matches it
+		if kind == "lookup" {
+			return context.WithValue(context.Background(), matchers.LookupPartitionContextKey, 7)
+		}
+		return context.WithValue(context.Background(), matchers.StringPredicateContextKey, 7)
+	}
 	if kind == "lookup" {
 		return context.WithValue(context.Background(), matchers.LookupPartitionContextKey, key)
 	}
